@@ -39,6 +39,34 @@ def poll_variant(E, path):
     return None
 
 
+def param_names(fn):
+    names = {}
+    for d in fn['debug']:
+        if not d['place']['p']:
+            names.setdefault(d['place']['l'], d['name'])
+    return [names.get(i, 'arg%d' % i) for i in range(1, fn['arg_count'] + 1)]
+
+
+def payload_param(fn):
+    """('param', name) of the parameter that carries the caller's value: the first parameter whose type is a bare
+    type parameter (`value: T`, `value: Self::Item`) - whatever it is called"""
+    ns = param_names(fn)
+    for i in range(1, fn['arg_count'] + 1):
+        t = fn['locals'][i]['ty']
+        if t.get('k') in ('param', 'alias', 'projection') or (t.get('str') or '').endswith('::Item'):
+            return ('param', ns[i - 1])
+    return ('param', 'value')
+
+
+def int_param(fn):
+    ns = param_names(fn)
+    for i in range(1, fn['arg_count'] + 1):
+        t = fn['locals'][i]['ty']
+        if t.get('name') in ('usize', 'u64', 'u32') or t.get('str') in ('usize', 'u64', 'u32'):
+            return ('param', ns[i - 1])
+    return None
+
+
 def own_node_roots(F, fn):
     names = {}
     for d in fn['debug']:
